@@ -42,6 +42,19 @@ Definition rewind_recovered (offs : list coff) (i : nat) : bool :=
   | None => false
   end.
 
+(* Rule 2 as calculatePartitionStatus applies it since the repair: EVERY backward step of the window counts, not only
+   the first one -- the status is REWIND when for some step prev -> c no commit from c on got back to prev's offset.
+   (The loop calls checkIfOffsetsRewind on the remaining sub-slice after each recovered rewind.) *)
+Fixpoint unrecovered_rewind (prev : coff) (rest : list coff) : bool :=
+  match rest with
+  | [] => false
+  | c :: post =>
+      ((co_offset c <? co_offset prev) && negb (existsb (fun o => co_offset prev <=? co_offset o) rest))
+      || unrecovered_rewind c post
+  end.
+Definition rewound_unrecovered (offs : list coff) : bool :=
+  match offs with [] => false | o :: r => unrecovered_rewind o r end.
+
 (* Rule 3, with Go's int64 arithmetic written out *)
 Definition offsets_stopped (offs : list coff) (now : Z) : bool :=
   match offs with
@@ -82,22 +95,31 @@ Definition recent_lag_zero (offs : list coff) (brokers : list Z) : bool :=
   | f :: _ => let lo := co_offset (last offs f) in existsb (fun b => b <=? lo) brokers
   end.
 
+(* the rules after REWIND *)
+Definition lag_rules (offs : list coff) (allowed : Z) : status :=
+  if lag_always_not_zero offs allowed then
+    if offsets_stalled offs then StStall
+    else if lag_not_decreasing offs then StWarn else StOK
+  else StOK.
+
 (* calculatePartitionStatus on a window without nil entries *)
 Definition calc_status_some (offs : list coff) (brokers : list Z)
            (cur_lag now allowed : Z) : status :=
   if cur_lag <=? allowed then StOK
   else if offsets_stopped offs now && negb (recent_lag_zero offs brokers) then StStop
+  else if rewound_unrecovered offs then StRewind
+  else lag_rules offs allowed.
+
+(* the same function BEFORE the repair (only the first backward step of the window was looked at): kept for the
+   before-fix refutation in props/C03.v *)
+Definition calc_status_some_v1 (offs : list coff) (brokers : list Z)
+           (cur_lag now allowed : Z) : status :=
+  if cur_lag <=? allowed then StOK
+  else if offsets_stopped offs now && negb (recent_lag_zero offs brokers) then StStop
   else
     match rewind_index offs with
-    | Some i => if negb (rewind_recovered offs i) then StRewind
-                else if lag_always_not_zero offs allowed then
-                       if offsets_stalled offs then StStall
-                       else if lag_not_decreasing offs then StWarn else StOK
-                     else StOK
-    | None => if lag_always_not_zero offs allowed then
-                if offsets_stalled offs then StStall
-                else if lag_not_decreasing offs then StWarn else StOK
-              else StOK
+    | Some i => if negb (rewind_recovered offs i) then StRewind else lag_rules offs allowed
+    | None => lag_rules offs allowed
     end.
 
 Fixpoint all_some {A} (l : list (option A)) : option (list A) :=
